@@ -1,9 +1,479 @@
-(* C11 — proofs about the putReplicas model. *)
+(* C11 — proofs about the putReplicas model: invariants of the inner loop (one round) and of the
+   round loop, for every response oracle [answer] and every completion schedule [pick]. *)
 From Coq Require Import Arith NArith List Ascii String Bool Lia Permutation.
 From AV Require Import lib.Str model.C11_model model.C11_run.
 Import ListNotations.
+Local Open Scope nat_scope.
 
-Lemma oversize_rejected_l H svcs order want retries oracle pick hash data nbytes :
-  (BLOCKSIZE < nbytes)%N ->
-  put H svcs order want retries oracle pick EPutHR hash data nbytes = {| r_res := Oversize; r_steps := []; r_abandoned := [] |}.
-Proof. intros Hn. unfold put. apply N.ltb_lt in Hn. rewrite Hn. reflexivity. Qed.
+Arguments complete : simpl never.
+Arguments start : simpl never.
+
+(* ------------------------------------------------------------------ list helpers *)
+Lemma list_sum_perm l1 l2 : Permutation l1 l2 -> list_sum l1 = list_sum l2.
+Proof. induction 1; simpl; lia. Qed.
+
+Lemma firstn_S_nth (l : list nat) n : n < List.length l -> firstn (S n) l = firstn n l ++ [nth n l 0].
+Proof.
+  revert n. induction l as [|a l IH]; intros n H; cbn [List.length] in H; [lia|].
+  destruct n; [reflexivity|]. cbn [nth]. change (firstn (S (S n)) (a :: l)) with (a :: firstn (S n) l).
+  rewrite IH by lia. reflexivity.
+Qed.
+
+Lemma nth_split_remove (l : list nat) i : i < List.length l -> Permutation l (nth i l 0 :: remove_nth i l).
+Proof.
+  intros H. unfold remove_nth. rewrite <- (firstn_skipn i l) at 1.
+  assert (Hs : skipn i l = nth i l 0 :: skipn (S i) l).
+  { clear -H. revert i H. induction l as [|a l IH]; intros i H; cbn [List.length] in H; [lia|].
+    destruct i; [reflexivity|]. cbn [skipn nth]. apply IH. lia. }
+  rewrite Hs. symmetry. apply Permutation_middle.
+Qed.
+
+Lemma nth_In_lt (l : list nat) i : i < List.length l -> In (nth i l 0) l.
+Proof. intros H. apply nth_In. exact H. Qed.
+
+Lemma remove_nth_length {A} i (l : list A) : i < List.length l -> List.length (remove_nth i l) = List.length l - 1.
+Proof.
+  intros H. unfold remove_nth. rewrite app_length, firstn_length, skipn_length. lia.
+Qed.
+
+Lemma NoDup_firstn_nth (l : list nat) n : NoDup l -> n < List.length l -> ~ In (nth n l 0) (firstn n l).
+Proof.
+  revert n. induction l as [|a l IH]; intros n Hnd Hn; cbn [List.length] in Hn; [lia|].
+  inversion Hnd as [|? ? Ha Hl]; subst.
+  destruct n; cbn [nth firstn]; [intros []|].
+  intros [E|Hin].
+  - apply Ha. rewrite E. apply nth_In. lia.
+  - eapply IH; [exact Hl| |exact Hin]. lia.
+Qed.
+
+Lemma firstn_In_incl {A} n (l : list A) x : In x (firstn n l) -> In x l.
+Proof.
+  revert l. induction n as [|n IH]; intros l H; [destruct H|]. destruct l as [|a l]; [destruct H|].
+  cbn [firstn] in H. destruct H as [H|H]; [left; exact H|right; apply IH; exact H].
+Qed.
+
+Lemma mem_In x l : mem x l = true <-> In x l.
+Proof.
+  unfold mem. rewrite existsb_exists. split.
+  - intros (y & Hy & E). apply Nat.eqb_eq in E. subst. exact Hy.
+  - intros H. exists x. split; [exact H|apply Nat.eqb_refl].
+Qed.
+
+(* ------------------------------------------------------------------ trace functions *)
+Definition last200 (tr : list step) : string :=
+  fold_left (fun l s => if is200 (st_out s) then o_body (st_out s) else l) tr EmptyString.
+
+Lemma total_stored_app a b : total_stored (a ++ b) = total_stored a + total_stored b.
+Proof. unfold total_stored, outs. rewrite !map_app, list_sum_app. reflexivity. Qed.
+Lemma total_stored_snoc a s : total_stored (a ++ [s]) = total_stored a + stored_of (st_out s).
+Proof. rewrite total_stored_app. unfold total_stored, outs. cbn. lia. Qed.
+
+Lemma last200_snoc a s : last200 (a ++ [s]) = if is200 (st_out s) then o_body (st_out s) else last200 a.
+Proof. unfold last200. rewrite fold_left_app. reflexivity. Qed.
+
+Lemma hist_app x a b : hist x (a ++ b) = hist x a ++ hist x b.
+Proof. unfold hist, outs. rewrite filter_app, map_app. reflexivity. Qed.
+Lemma hist_snoc x a s : hist x (a ++ [s]) = hist x a ++ (if st_done s =? x then [st_out s] else []).
+Proof. rewrite hist_app. unfold hist, outs. cbn [filter]. destruct (st_done s =? x); reflexivity. Qed.
+
+Lemma retry_ok_b_snoc r a : forall seen s,
+  retry_ok_b r seen (a ++ [s]) = retry_ok_b r seen a && forallb (may_contact_b r (seen ++ a)) (st_started s).
+Proof.
+  induction a as [|x a IH]; intros seen s; cbn [app retry_ok_b].
+  - rewrite app_nil_r, andb_true_r. reflexivity.
+  - rewrite IH, <- app_assoc. cbn [app]. rewrite andb_assoc. reflexivity.
+Qed.
+
+(* loc_ok_b holds of the last 200 body *)
+Lemma loc_ok_fold tr : forall l0,
+  let l := fold_left (fun l s => if is200 (st_out s) then o_body (st_out s) else l) tr l0 in
+  (existsb is200 (outs tr) = false /\ l = l0) \/
+  (existsb (fun o => is200 o && String.eqb (o_body o) l) (outs tr) = true).
+Proof.
+  induction tr as [|s tr IH]; intros l0; cbn [fold_left outs map existsb].
+  - left. split; reflexivity.
+  - fold (outs tr). specialize (IH (if is200 (st_out s) then o_body (st_out s) else l0)). cbn zeta in IH.
+    destruct IH as [[Hn Hl]|Hy].
+    + destruct (is200 (st_out s)) eqn:E.
+      * right. rewrite Hl, String.eqb_refl. reflexivity.
+      * left. split; [exact Hn|exact Hl].
+    + right. rewrite Hy. apply orb_true_r.
+Qed.
+
+Lemma loc_ok_last200 tr : loc_ok_b (last200 tr) tr = true.
+Proof.
+  unfold loc_ok_b. destruct (loc_ok_fold tr EmptyString) as [[Hn Hl]|Hy]; fold (last200 tr) in *.
+  - rewrite Hn, Hl. reflexivity.
+  - assert (He : existsb is200 (outs tr) = true).
+    { apply existsb_exists in Hy. destruct Hy as (o & Ho & E). apply andb_true_iff in E.
+      apply existsb_exists. exists o. tauto. }
+    rewrite He. exact Hy.
+Qed.
+
+Lemma count_perm x l1 l2 : Permutation l1 l2 -> count_nat x l1 = count_nat x l2.
+Proof. induction 1; cbn [count_nat]; lia. Qed.
+
+Lemma count_app x a b : count_nat x (a ++ b) = count_nat x a + count_nat x b.
+Proof. induction a as [|y a IH]; cbn [app count_nat]; [reflexivity|]. rewrite IH. lia. Qed.
+
+(* ================================================================== one Put *)
+Section PR.
+Variable rpt : nat.
+Variable answer : nat -> nat -> outcome.
+Variable pick : nat -> nat.
+Variable want retries : nat.
+Variable sv0 : list nat.          (* the writable services in rendezvous order *)
+
+Notation inner := (inner rpt answer pick).
+Notation outer := (outer rpt answer pick).
+Notation complete := (complete answer).
+
+Definition gain (round : nat) (l : list nat) : nat := list_sum (map (fun x => stored_of (answer x round)) l).
+Lemma gain_perm round l1 l2 : Permutation l1 l2 -> gain round l1 = gain round l2.
+Proof. intros H. unfold gain. apply list_sum_perm. apply Permutation_map. exact H. Qed.
+
+Definition step_ok (s : step) : Prop :=
+  st_out s = answer (st_done s) (st_round s) /\ In (st_done s) sv0 /\ incl (st_started s) sv0.
+
+(* facts that hold when a round begins *)
+Record RInv (round : nat) (servers : list nat) (dn td : nat) (lc : string) (tr : list step) : Prop := {
+  ri_done : dn = total_stored tr;
+  ri_todo : td = want - dn;
+  ri_loc : lc = last200 tr;
+  ri_nodup : NoDup servers;
+  ri_incl : incl servers sv0;
+  ri_flight : Permutation (flat_map st_started tr) (map st_done tr);
+  ri_steps : Forall step_ok tr;
+  ri_hist : forall x, In x servers ->
+            forallb (fun o => retryable (o_code o)) (hist x tr) = true /\ List.length (hist x tr) = round;
+  ri_retry : retry_ok_b retries [] tr = true;
+  ri_exh : forall x, In x sv0 -> ~ In x servers -> 1 <= List.length (hist x tr) /\ last_retryable x tr = false
+}.
+
+(* facts that hold inside round [round], which began with servers [servers] and log [tr0] *)
+Record Inv (round : nat) (servers : list nat) (tr0 : list step) (s : st) : Prop := {
+  iv_sv : sv s = servers;
+  iv_next : next s <= List.length (sv s);
+  iv_perm : Permutation (firstn (next s) (sv s)) (active s ++ completed s);
+  iv_done : done s = total_stored (steps s);
+  iv_todo : todo s = want - done s;
+  iv_loc : loc s = last200 (steps s);
+  iv_flight : Permutation (flat_map st_started (steps s) ++ pend s) (map st_done (steps s) ++ active s);
+  iv_steps : Forall step_ok (steps s);
+  iv_pend : incl (pend s) sv0;
+  iv_retry : retry s = filter (fun x => retryable (o_code (answer x round))) (rev (completed s));
+  iv_hist : forall x, hist x (steps s) = hist x tr0 ++ (if mem x (completed s) then [answer x round] else []);
+  iv_rok : retry_ok_b retries [] (steps s) = true;
+  iv_pok : forallb (may_contact_b retries (steps s)) (pend s) = true;
+  iv_gain : done s = total_stored tr0 + gain round (completed s);
+  iv_pn : pend s = [] \/ (active s <> [] /\ todo s <> 0)
+}.
+
+Definition mu (s : st) : nat := 2 * (List.length (sv s) - next s) + List.length (active s).
+
+Section Round.
+Variable round : nat.
+Variable servers : list nat.
+Variable tr0 : list step.
+Hypothesis Hnd : NoDup servers.
+Hypothesis Hincl : incl servers sv0.
+Hypothesis Hround : round <= retries.
+Hypothesis Hhist : forall x, In x servers ->
+  forallb (fun o => retryable (o_code o)) (hist x tr0) = true /\ List.length (hist x tr0) = round.
+
+Lemma active_completed_in s : Inv round servers tr0 s -> forall x, In x (active s ++ completed s) -> In x servers.
+Proof.
+  intros I x Hx. rewrite <- (iv_sv _ _ _ _ I).
+  apply (firstn_In_incl (next s)). eapply Permutation_in; [symmetry; apply (iv_perm _ _ _ _ I)|exact Hx].
+Qed.
+
+Lemma nodup_active_completed s : Inv round servers tr0 s -> NoDup (active s ++ completed s).
+Proof.
+  intros I. eapply Permutation_NoDup; [apply (iv_perm _ _ _ _ I)|].
+  rewrite (iv_sv _ _ _ _ I). clear -Hnd. revert servers Hnd. induction (next s) as [|n IH]; intros l Hl; [constructor|].
+  destruct l as [|a l]; [constructor|]. cbn [firstn]. inversion Hl; subst. constructor.
+  - intros Hin. apply H1. eapply firstn_In_incl. exact Hin.
+  - apply IH. assumption.
+Qed.
+
+Lemma start_inv s : Inv round servers tr0 s -> next s < List.length (sv s) -> todo s <> 0 -> Inv round servers tr0 (start s).
+Proof.
+  intros I Hlt Htodo. pose proof (iv_sv _ _ _ _ I) as Hsv.
+  set (x := nth (next s) (sv s) 0).
+  assert (Hxin : In x servers) by (rewrite <- Hsv; apply nth_In; exact Hlt).
+  assert (Hxnew : ~ In x (active s ++ completed s)).
+  { intros Hin. eapply Permutation_in in Hin; [|symmetry; apply (iv_perm _ _ _ _ I)].
+    revert Hin. apply NoDup_firstn_nth; [rewrite Hsv; exact Hnd|exact Hlt]. }
+  constructor; unfold start; cbn [sv next active completed done todo retry loc pend steps]; fold x.
+  - exact Hsv.
+  - lia.
+  - rewrite firstn_S_nth by exact Hlt. fold x. rewrite <- app_assoc.
+    eapply Permutation_trans; [apply Permutation_app_tail; apply (iv_perm _ _ _ _ I)|].
+    rewrite <- !app_assoc. apply Permutation_app_head. apply Permutation_app_comm.
+  - apply (iv_done _ _ _ _ I).
+  - apply (iv_todo _ _ _ _ I).
+  - apply (iv_loc _ _ _ _ I).
+  - rewrite !app_assoc. apply Permutation_app_tail. apply (iv_flight _ _ _ _ I).
+  - apply (iv_steps _ _ _ _ I).
+  - apply incl_app; [apply (iv_pend _ _ _ _ I)|]. intros y [<-|[]]. apply Hincl. exact Hxin.
+  - apply (iv_retry _ _ _ _ I).
+  - apply (iv_hist _ _ _ _ I).
+  - apply (iv_rok _ _ _ _ I).
+  - rewrite forallb_app, (iv_pok _ _ _ _ I). cbn [forallb]. rewrite andb_true_r, andb_true_l.
+    unfold may_contact_b. rewrite (iv_hist _ _ _ _ I x).
+    assert (Hm : mem x (completed s) = false).
+    { destruct (mem x (completed s)) eqn:E; [|reflexivity]. exfalso. apply Hxnew. apply in_or_app. right.
+      apply mem_In. exact E. }
+    rewrite Hm, app_nil_r. destruct (Hhist x Hxin) as [Hr Hl]. rewrite Hr, Hl. cbn [andb]. apply Nat.leb_le. exact Hround.
+  - apply (iv_gain _ _ _ _ I).
+  - right. split; [destruct (active s); discriminate|exact Htodo].
+Qed.
+
+Lemma complete_inv s i : Inv round servers tr0 s -> i < List.length (active s) -> Inv round servers tr0 (complete round s i).
+Proof.
+  intros I Hi. pose proof (iv_sv _ _ _ _ I) as Hsv.
+  set (x := nth i (active s) 0). set (o := answer x round).
+  assert (Hxa : In x (active s)) by (apply nth_In; exact Hi).
+  assert (Hxs : In x servers) by (eapply active_completed_in; [exact I|apply in_or_app; left; exact Hxa]).
+  pose proof (nodup_active_completed s I) as Hnd2.
+  assert (Hxc : ~ In x (completed s)).
+  { intros Hc. pose proof (nth_split_remove (active s) i Hi) as Hp. fold x in Hp.
+    eapply Permutation_NoDup in Hnd2; [|apply Permutation_app_tail; exact Hp].
+    cbn [app] in Hnd2. inversion Hnd2; subst. apply H1. apply in_or_app. right. exact Hc. }
+  pose proof (nth_split_remove (active s) i Hi) as Hp. fold x in Hp.
+  constructor; unfold C11_model.complete; cbn [sv next active completed done todo retry loc pend steps]; fold x; fold o.
+  - exact Hsv.
+  - apply (iv_next _ _ _ _ I).
+  - eapply Permutation_trans; [apply (iv_perm _ _ _ _ I)|].
+    eapply Permutation_trans; [apply Permutation_app_tail; exact Hp|]. cbn [app]. apply Permutation_middle.
+  - rewrite total_stored_snoc. cbn [st_out]. rewrite (iv_done _ _ _ _ I). reflexivity.
+  - rewrite (iv_todo _ _ _ _ I). lia.
+  - rewrite last200_snoc. cbn [st_out]. rewrite (iv_loc _ _ _ _ I). reflexivity.
+  - rewrite flat_map_app, map_app. cbn [flat_map map st_started st_done]. rewrite !app_nil_r.
+    eapply Permutation_trans; [apply (iv_flight _ _ _ _ I)|].
+    rewrite <- app_assoc. apply Permutation_app_head. cbn [app]. exact Hp.
+  - apply Forall_app. split; [apply (iv_steps _ _ _ _ I)|]. constructor; [|constructor].
+    unfold step_ok. cbn [st_out st_done st_round st_started]. split; [reflexivity|]. split; [apply Hincl; exact Hxs|apply (iv_pend _ _ _ _ I)].
+  - intros y [].
+  - rewrite (iv_retry _ _ _ _ I). cbn [rev]. rewrite filter_app. cbn [filter]. fold o.
+    destruct (retryable (o_code o)); [reflexivity|rewrite app_nil_r; reflexivity].
+  - intros y. rewrite hist_snoc. cbn [st_done st_out]. rewrite (iv_hist _ _ _ _ I y). cbn [mem existsb].
+    destruct (Nat.eqb_spec x y) as [E|E].
+    + subst y. rewrite Nat.eqb_refl. cbn [orb].
+      assert (Hm : mem x (completed s) = false).
+      { destruct (mem x (completed s)) eqn:Em; [|reflexivity]. exfalso. apply Hxc. apply mem_In. exact Em. }
+      rewrite Hm, app_nil_r. reflexivity.
+    + assert (E' : (y =? x) = false) by (apply Nat.eqb_neq; congruence). rewrite E'. cbn [orb]. rewrite app_nil_r. reflexivity.
+  - rewrite retry_ok_b_snoc. cbn [app st_started]. rewrite (iv_rok _ _ _ _ I), (iv_pok _ _ _ _ I). reflexivity.
+  - reflexivity.
+  - rewrite (iv_gain _ _ _ _ I). unfold gain. cbn [map]. fold o. change (list_sum (?a :: ?l)) with (a + list_sum l). lia.
+  - left. reflexivity.
+Qed.
+
+Lemma complete_mu s i : i < List.length (active s) -> mu (complete round s i) < mu s.
+Proof.
+  intros Hi. unfold mu, C11_model.complete. cbn [sv next active]. rewrite remove_nth_length by exact Hi. lia.
+Qed.
+
+(* the loop of one round really exits (it is not cut off by the fuel), and the invariant holds at the exit *)
+Lemma inner_inv fuel : forall s k,
+  Inv round servers tr0 s -> mu s < fuel ->
+  let s' := fst (inner fuel round s k) in
+  Inv round servers tr0 s' /\ (todo s' = 0 \/ (active s' = [] /\ List.length (sv s') <= next s')) /\ pend s' = [].
+Proof.
+  induction fuel as [|f IH]; intros s k I Hmu; [lia|]. cbn [C11_model.inner].
+  destruct (todo s =? 0) eqn:E0.
+  { apply Nat.eqb_eq in E0. cbn [fst]. split; [exact I|]. split; [auto|].
+    destruct (iv_pn _ _ _ _ I) as [P|[_ P]]; [exact P|contradiction]. }
+  destruct ((List.length (active s) * rpt <? todo s) && (next s <? List.length (sv s))) eqn:E1.
+  - apply andb_true_iff in E1. destruct E1 as [_ E1]. apply Nat.ltb_lt in E1.
+    apply IH; [apply start_inv; [assumption|assumption|apply Nat.eqb_neq; exact E0]|].
+    unfold mu, start in *. cbn [sv next active]. rewrite app_length. cbn [List.length]. lia.
+  - destruct (active s) as [|a0 arest] eqn:Ea.
+    + cbn [fst]. split; [exact I|]. split.
+      * right. split; [exact Ea|].
+        apply andb_false_iff in E1. destruct E1 as [E1|E1].
+        -- apply Nat.ltb_ge in E1. cbn [List.length] in E1. apply Nat.eqb_neq in E0. lia.
+        -- apply Nat.ltb_ge in E1. exact E1.
+      * destruct (iv_pn _ _ _ _ I) as [P|[P _]]; [exact P|rewrite Ea in P; contradiction].
+    + rewrite <- Ea in *.
+      set (i := pick k mod List.length (active s)).
+      assert (Hi : i < List.length (active s)).
+      { unfold i. apply Nat.mod_upper_bound. rewrite Ea. cbn [List.length]. lia. }
+      apply IH; [apply complete_inv; assumption|].
+      pose proof (complete_mu s i Hi). lia.
+Qed.
+End Round.
+
+Lemma round_fuel_enough servers s : sv s = servers -> next s = 0 -> active s = [] -> mu s < round_fuel servers.
+Proof. intros H1 H2 H3. unfold mu, round_fuel. rewrite H1, H2, H3. cbn [List.length]. lia. Qed.
+
+Definition s_init (servers : list nat) (dn td : nat) (lc : string) (tr : list step) : st :=
+  {| sv := servers; next := 0; active := []; completed := []; done := dn; todo := td; retry := []; loc := lc; pend := []; steps := tr |}.
+
+Lemma init_inv round servers dn td lc tr :
+  RInv round servers dn td lc tr -> Inv round servers tr (s_init servers dn td lc tr).
+Proof.
+  intros R. constructor; unfold s_init; cbn [sv next active completed done todo retry loc pend steps].
+  - reflexivity.
+  - lia.
+  - constructor.
+  - apply (ri_done _ _ _ _ _ _ R).
+  - apply (ri_todo _ _ _ _ _ _ R).
+  - apply (ri_loc _ _ _ _ _ _ R).
+  - rewrite !app_nil_r. apply (ri_flight _ _ _ _ _ _ R).
+  - apply (ri_steps _ _ _ _ _ _ R).
+  - intros x [].
+  - reflexivity.
+  - intros x. cbn [mem existsb]. rewrite app_nil_r. reflexivity.
+  - apply (ri_retry _ _ _ _ _ _ R).
+  - reflexivity.
+  - unfold gain. cbn. rewrite (ri_done _ _ _ _ _ _ R). lia.
+  - left. reflexivity.
+Qed.
+
+(* when a round ends with uploads still to do, every server of the round has answered, and the next
+   round's facts hold for the retry list *)
+Lemma next_round round servers dn td lc tr s :
+  RInv round servers dn td lc tr -> round <= retries ->
+  Inv round servers tr s -> active s = [] -> List.length (sv s) <= next s -> pend s = [] ->
+  RInv (S round) (retry s) (done s) (todo s) (loc s) (steps s).
+Proof.
+  intros R Hr I Ha Hn Hp.
+  pose proof (iv_sv _ _ _ _ I) as Hsv.
+  assert (Hperm : Permutation servers (completed s)).
+  { pose proof (iv_perm _ _ _ _ I) as P. rewrite Ha in P. cbn [app] in P. rewrite firstn_all2 in P by exact Hn.
+    rewrite Hsv in P. exact P. }
+  assert (Hndc : NoDup (completed s)) by (eapply Permutation_NoDup; [exact Hperm|apply (ri_nodup _ _ _ _ _ _ R)]).
+  assert (Hretry_in : forall x, In x (retry s) <-> In x servers /\ retryable (o_code (answer x round)) = true).
+  { intros x. rewrite (iv_retry _ _ _ _ I), filter_In, <- in_rev. split; intros [A B]; split; try exact B.
+    - eapply Permutation_in; [symmetry; exact Hperm|exact A].
+    - eapply Permutation_in; [exact Hperm|exact A]. }
+  constructor.
+  - apply (iv_done _ _ _ _ I).
+  - apply (iv_todo _ _ _ _ I).
+  - apply (iv_loc _ _ _ _ I).
+  - rewrite (iv_retry _ _ _ _ I). apply NoDup_filter. apply NoDup_rev. exact Hndc.
+  - intros x Hx. apply Hretry_in in Hx. apply (ri_incl _ _ _ _ _ _ R). tauto.
+  - pose proof (iv_flight _ _ _ _ I) as F. rewrite Ha, Hp, !app_nil_r in F. exact F.
+  - apply (iv_steps _ _ _ _ I).
+  - intros x Hx. apply Hretry_in in Hx. destruct Hx as [Hxs Hxr].
+    rewrite (iv_hist _ _ _ _ I x).
+    assert (Hm : mem x (completed s) = true) by (apply mem_In; eapply Permutation_in; [exact Hperm|exact Hxs]).
+    rewrite Hm. destruct (ri_hist _ _ _ _ _ _ R x Hxs) as [A B]. rewrite forallb_app, A. cbn [forallb]. rewrite Hxr.
+    split; [reflexivity|]. rewrite app_length, B. cbn [List.length]. lia.
+  - apply (iv_rok _ _ _ _ I).
+  - intros x Hx0 Hnr. destruct (in_dec Nat.eq_dec x servers) as [Hxs|Hxs].
+    + (* answered in this round, not retryable *)
+      assert (Hm : mem x (completed s) = true) by (apply mem_In; eapply Permutation_in; [exact Hperm|exact Hxs]).
+      assert (Hnot : retryable (o_code (answer x round)) = false).
+      { destruct (retryable (o_code (answer x round))) eqn:E; [|reflexivity]. exfalso. apply Hnr. apply Hretry_in. tauto. }
+      unfold last_retryable. rewrite (iv_hist _ _ _ _ I x), Hm. rewrite app_length, rev_app_distr. cbn [List.length rev app].
+      split; [lia|exact Hnot].
+    + destruct (ri_exh _ _ _ _ _ _ R x Hx0 Hxs) as [A B].
+      assert (Hm : mem x (completed s) = false).
+      { destruct (mem x (completed s)) eqn:E; [|reflexivity]. exfalso. apply Hxs. apply mem_In in E.
+        eapply Permutation_in; [symmetry; exact Hperm|exact E]. }
+      unfold last_retryable in *. rewrite (iv_hist _ _ _ _ I x), Hm, app_nil_r. split; assumption.
+Qed.
+
+(* what holds of the result of the round loop *)
+Record Post (r : run) : Prop := {
+  po_steps : Forall step_ok (r_steps r);
+  po_retry : retry_ok_b retries [] (r_steps r) = true;
+  po_flight : Permutation (flat_map st_started (r_steps r)) (map st_done (r_steps r) ++ r_abandoned r);
+  po_aband : incl (r_abandoned r) sv0;
+  po_ok : forall l n, r_res r = Ok l n -> want <= n /\ n = total_stored (r_steps r) /\ l = last200 (r_steps r);
+  po_err : forall l n, r_res r = Insufficient l n ->
+           n < want /\ n = total_stored (r_steps r) /\ l = last200 (r_steps r) /\ r_abandoned r = [] /\
+           (forall x, In x sv0 -> 1 <= List.length (hist x (r_steps r)) /\
+                                  (last_retryable x (r_steps r) = true -> List.length (hist x (r_steps r)) = S retries));
+  po_noover : r_res r <> Oversize
+}.
+
+Lemma init_fuel servers dn td lc tr : mu (s_init servers dn td lc tr) < round_fuel servers.
+Proof. apply round_fuel_enough; reflexivity. Qed.
+
+Lemma outer_unfold rounds round servers dn td lc k tr :
+  outer (S rounds) round servers dn td lc k tr =
+  let '(s, k') := inner (round_fuel servers) round (s_init servers dn td lc tr) k in
+  if todo s =? 0 then {| r_res := Ok (loc s) (done s); r_steps := steps s; r_abandoned := active s |}
+  else if rounds =? 0 then {| r_res := Insufficient (loc s) (done s); r_steps := steps s; r_abandoned := active s |}
+  else outer rounds (S round) (retry s) (done s) (todo s) (loc s) k' (steps s).
+Proof. reflexivity. Qed.
+
+Lemma outer_post rounds : forall round servers dn td lc k tr,
+  RInv round servers dn td lc tr -> round + rounds = S retries -> 1 <= rounds ->
+  Post (outer rounds round servers dn td lc k tr).
+Proof.
+  induction rounds as [|r IH]; intros round servers dn td lc k tr R Hsum Hpos; [lia|].
+  rewrite outer_unfold.
+  assert (Hround : round <= retries) by lia.
+  pose proof (inner_inv round servers tr (ri_nodup _ _ _ _ _ _ R) (ri_incl _ _ _ _ _ _ R) Hround (ri_hist _ _ _ _ _ _ R)
+                        (round_fuel servers) (s_init servers dn td lc tr) k (init_inv _ _ _ _ _ _ R)
+                        (init_fuel _ _ _ _ _)) as HI.
+  cbn zeta in HI.
+  destruct (inner (round_fuel servers) round (s_init servers dn td lc tr) k) as [s k'] eqn:E. cbn [fst] in HI.
+  destruct HI as (I & Hexit & Hpend).
+  assert (Hact : incl (active s) sv0).
+  { intros x Hx. apply (ri_incl _ _ _ _ _ _ R). eapply active_completed_in; [exact I|].
+    apply in_or_app. left. exact Hx. }
+  assert (Hfl : Permutation (flat_map st_started (steps s)) (map st_done (steps s) ++ active s)).
+  { pose proof (iv_flight _ _ _ _ I) as F. rewrite Hpend, app_nil_r in F. exact F. }
+  destruct (todo s =? 0) eqn:E0.
+  - apply Nat.eqb_eq in E0. constructor; cbn [r_res r_steps r_abandoned].
+    + apply (iv_steps _ _ _ _ I).
+    + apply (iv_rok _ _ _ _ I).
+    + exact Hfl.
+    + exact Hact.
+    + intros l n [= <- <-]. pose proof (iv_todo _ _ _ _ I). split; [lia|]. split; [apply (iv_done _ _ _ _ I)|apply (iv_loc _ _ _ _ I)].
+    + intros l n Hx. discriminate.
+    + discriminate.
+  - apply Nat.eqb_neq in E0. destruct Hexit as [Hz|[Ha Hn]]; [contradiction|].
+    pose proof (next_round round servers dn td lc tr s R Hround I Ha Hn Hpend) as R'.
+    destruct (r =? 0) eqn:Er.
+    + apply Nat.eqb_eq in Er. subst r. constructor; cbn [r_res r_steps r_abandoned].
+      * apply (iv_steps _ _ _ _ I).
+      * apply (iv_rok _ _ _ _ I).
+      * exact Hfl.
+      * exact Hact.
+      * intros l n Hx. discriminate.
+      * intros l n [= <- <-]. pose proof (iv_todo _ _ _ _ I).
+        split; [lia|]. split; [apply (iv_done _ _ _ _ I)|]. split; [apply (iv_loc _ _ _ _ I)|]. split; [exact Ha|].
+        intros x Hx. destruct (in_dec Nat.eq_dec x (retry s)) as [Hr|Hr].
+        -- destruct (ri_hist _ _ _ _ _ _ R' x Hr) as [_ Hl]. rewrite Hl. split; [lia|]. intros _. lia.
+        -- destruct (ri_exh _ _ _ _ _ _ R' x Hx Hr) as [A B]. split; [exact A|]. rewrite B. discriminate.
+      * discriminate.
+    + apply Nat.eqb_neq in Er. apply IH; [exact R'|lia|lia].
+Qed.
+
+Lemma rinv_init servers : NoDup servers -> sv0 = servers -> RInv 0 servers 0 want EmptyString [].
+Proof.
+  intros Hnd <-. constructor; cbn; try reflexivity; try lia; try constructor; try exact Hnd.
+  - apply incl_refl.
+  - intros x _. split; reflexivity.
+  - intros x H1 H2. contradiction.
+Qed.
+
+(* enough replicas offered in the first round => success, whatever the schedule and the later answers *)
+Lemma first_round_enough servers :
+  NoDup servers -> sv0 = servers -> want <= gain 0 servers ->
+  exists l n, r_res (outer (S retries) 0 servers 0 want EmptyString 0 []) = Ok l n.
+Proof.
+  intros Hnd Hsv Hg. pose proof (rinv_init servers Hnd Hsv) as R.
+  rewrite outer_unfold.
+  pose proof (inner_inv 0 servers [] (ri_nodup _ _ _ _ _ _ R) (ri_incl _ _ _ _ _ _ R) (Nat.le_0_l _) (ri_hist _ _ _ _ _ _ R)
+                        (round_fuel servers) (s_init servers 0 want EmptyString []) 0 (init_inv _ _ _ _ _ _ R)
+                        (init_fuel _ _ _ _ _)) as HI.
+  cbn zeta in HI.
+  destruct (inner (round_fuel servers) 0 (s_init servers 0 want EmptyString []) 0) as [s k'] eqn:E. cbn [fst] in HI.
+  destruct HI as (I & Hexit & Hpend).
+  assert (Hz : todo s = 0).
+  { destruct Hexit as [Hz|[Ha Hn]]; [exact Hz|].
+    pose proof (iv_perm _ _ _ _ I) as P. rewrite Ha in P. cbn [app] in P. rewrite firstn_all2 in P by exact Hn.
+    rewrite (iv_sv _ _ _ _ I) in P. rewrite (gain_perm 0 _ _ P) in Hg.
+    pose proof (iv_gain _ _ _ _ I) as G. cbn in G. pose proof (iv_todo _ _ _ _ I). lia. }
+  rewrite Hz. cbn [Nat.eqb r_res]. eauto.
+Qed.
+
+End PR.
